@@ -38,7 +38,7 @@ fuzz_target!(|data: &[u8]| {
         let partial = u.ratio(1, 3).unwrap_or(false);
         let mut ops = Vec::new();
         for _ in 0..u.int_in_range(0..=30).unwrap_or(0) {
-            let op = match u.int_in_range(0..=19u8).unwrap_or(0) {
+            let op = match u.int_in_range(0..=21u8).unwrap_or(0) {
                 0..=7 => c14::Op::Next,
                 8..=10 => c14::Op::Bump(u.arbitrary::<u16>().unwrap_or(0)),
                 11 | 12 => c14::Op::CloneCheck,
@@ -46,6 +46,7 @@ fuzz_target!(|data: &[u8]| {
                 14..=16 => c14::Op::Morph,
                 17 => c14::Op::Spanned,
                 18 => c14::Op::Accessors,
+                20 | 21 => c14::Op::CloneFrom(u.arbitrary::<u8>().unwrap_or(0)),
                 _ => c14::Op::Extras(u.arbitrary::<u8>().unwrap_or(1)),
             };
             ops.push(op);
@@ -63,7 +64,8 @@ fuzz_target!(|data: &[u8]| {
         for _ in 0..u.int_in_range(1..=4).unwrap_or(1) {
             bumps.push(c15::N::Boundary(u.arbitrary::<u8>().unwrap_or(0), 0));
         }
-        let case = c15::Case { source_kind, bytes_mode, input, nexts, bumps };
+        let partial = u.ratio(1, 3).unwrap_or(false);
+        let case = c15::Case { source_kind, bytes_mode, input, nexts, bumps, partial };
         if let Err(m) = c15::interpret(&case, None) {
             panic!("FINDING property=C15 {m}\n{case:?}");
         }
